@@ -37,6 +37,7 @@ panic-freedom of the float bodies of the BC1/BC4/BC7 block encoders, of the dith
 diffusion and of the pixel readers.  The check is therefore `partial` with respect to the
 property's "never panics" clause.
 -/
+import DdsModel.Proofs.TrapMipWrite
 import DdsModel.Proofs.EncTotal
 import DdsModel.Proofs.EncQuant
 import DdsModel.Proofs.SharedExp
@@ -1162,5 +1163,67 @@ example : r5g6b5Round true 0x7FC00000 0xFF800000 one = some (31, 0, 31) ∧
 example : quantRound 5 0x7FC00000 = some 0 ∧ quantRound 7 0x7F800000 = some 127 ∧ quantRound 6 one = some 63 ∧
     quantRound 4 0x7FC00000 = some 15 ∧ quantCeil 5 half = some 16 ∧ quantFloor 5 half = some 15 ∧
     quantRound 3 one = none := by decide +kernel
+
+end Dds.C15
+
+/-! ## Section Q — `Encoder::write_surface_impl` with mipmap generation does not panic (`TrapMip.lean`)
+
+`writeSurfaceT` evaluates, in program order, every operation of src/encoder.rs:156–241 that can panic in the
+overflow-checking profile: `iter.current()`, `current.mipmap_level + 1` (`u8`), `saturating_sub`, the progress
+sub-ranges (`level as i32 + 1`, `ProgressRange::from_to`'s `debug_assert!(from <= to)` on `1 − 0.4^l`, exact
+rationals), `iter.advance()`, `Vec::with_capacity(16)`, the look-ahead loop, `MipmapCache::generate` with all of
+section Q of `Theorems/C16.lean` behind it, and the `u8` counter `level += 1` of the callback.  `encode` itself is
+section M (`encode_loops_trapfree`). -/
+namespace Dds.C15
+open Dds Dds.TrapMip Dds.TrapEnc
+
+/-- For every encoder state satisfying C11's invariant (any layout, any cursor position, generation on or off) whose
+iterator is the layout's (`Linked`, established by `Encoder::new`: `linked_new`), every cache state, every image the
+public API can build (C20's invariant: any size — also a wrong one —, address, pitch, colour; pixel bytes ≤ `BMAX`),
+every filter and alpha setting, cancelled or not: the trapping mirror of `write_surface_impl` returns `some`, and
+what it returns is exactly `Enc.write` — the function C11's theorems (`step_inv`, `history`, …) are about — so those
+theorems hold in the trapping semantics; the cache stays well-formed for the next call. -/
+theorem write_surface_trapfree (al : Alloc) (ha : AlOK al) (rayon : Bool) (e : Enc) (v : C11.EncInv e)
+    (hL : Linked e) (k : Cache) (hk : CacheOK k) (im : Img) (him : ImgOK im) (pre : Bool) :
+    ∃ k', writeSurfaceT al rayon e k im pre =
+        some ((e.write im.v.w im.v.h pre).1, (e.write im.v.w im.v.h pre).2, k') ∧ CacheOK k' ∧
+      e.step (if pre then .writeCancelled im.v.w im.v.h else .write im.v.w im.v.h) = e.write im.v.w im.v.h pre ∧
+      C11.EncInv (e.write im.v.w im.v.h pre).1 ∧ (e.write im.v.w im.v.h pre).2 ≠ .panic := by
+  obtain ⟨k', e1, e2⟩ := writeSurfaceT_ok ha rayon e v.iter hL hk him pre
+  refine ⟨k', e1, e2, ?_, ?_⟩
+  · cases pre <;> rfl
+  · cases pre with
+    | true => exact C11.step_inv e v (.writeCancelled im.v.w im.v.h)
+    | false => exact C11.step_inv e v (.write im.v.w im.v.h)
+
+/-- `Encoder::new` links the iterator to the layout -/
+theorem linked_new (L : DataLayout) (mw mh : Nat) : Linked (Enc.new L mw mh) := by
+  cases L <;> simp [Linked, Enc.new, SurfIter.new, DataLayout.isVolume, DataLayout.mips, TextureArray.first]
+
+/-- a 2×2 RGBA8 texture with 2 levels, cursor at level `l`, generation on -/
+def exEnc (l : Nat) : Enc :=
+  { Enc.new (.texture ⟨2, 2, 2, .fixed 4, 0, some 20⟩) 1 1 with iter := .tex ⟨⟨2, 2, 2, .fixed 4, 0, some 20⟩, 1, 0, l⟩ }
+def exAlQ : Alloc := fun _ n => 64 * (n + 1)
+
+-- the hypotheses are satisfiable; level 0 at an odd address with a pitch generates level 1 (Triangle on 2×2: the
+-- one-level case of previous-two) and the encoder is done
+example : Linked (exEnc 0) ∧ AlOK exAlQ ∧ ImgOK ⟨1001, ⟨0, 19, 2, 2, 4, 11⟩, ⟨.rgba, 1⟩, .triangle, true⟩ ∧
+    (writeSurfaceT exAlQ true (exEnc 0) Cache.new ⟨1001, ⟨0, 19, 2, 2, 4, 11⟩, ⟨.rgba, 1⟩, .triangle, true⟩ false).map
+      (fun r => (r.1.written, r.2.1, r.1.finish)) = some (20, .ok, .ok) := by
+  refine ⟨⟨rfl, rfl⟩, fun _ n => by show 64 * (n + 1) % 4 = 0; omega, ⟨⟨⟨by decide, by decide, by decide, by decide,
+    by decide, by decide, by decide, by decide⟩, rfl, by decide, by decide⟩, Or.inl rfl, by unfold BMAX; decide⟩, by decide +kernel⟩
+-- seed C11b (`mipmaps_to_generate = mipmaps − 1`): writing the LAST level by hand with generation on enters the
+-- mipmap branch with an empty size list and `generate_from_previous` panics at `sizes[0]`; the code as it is
+-- writes the level (4 bytes) and is done.  (For a level-0 surface both agree.)
+example : writeSurfaceWithT toGenSeedT exAlQ true (exEnc 1) Cache.new ⟨1000, ⟨0, 4, 1, 1, 4, 4⟩, ⟨.rgba, 1⟩, .box, true⟩ false
+      = none ∧
+    (writeSurfaceT exAlQ true (exEnc 1) Cache.new ⟨1000, ⟨0, 4, 1, 1, 4, 4⟩, ⟨.rgba, 1⟩, .box, true⟩ false).map
+      (fun r => (r.1.written, r.2.1)) = some (4, .ok) ∧
+    writeSurfaceWithT toGenSeedT exAlQ true (exEnc 0) Cache.new ⟨1000, ⟨0, 16, 2, 2, 4, 8⟩, ⟨.rgba, 1⟩, .box, true⟩ false =
+      writeSurfaceT exAlQ true (exEnc 0) Cache.new ⟨1000, ⟨0, 16, 2, 2, 4, 8⟩, ⟨.rgba, 1⟩, .box, true⟩ false := by
+  decide +kernel
+-- a layout with a single level: the seed's `1 − 1 = 0`; with `mipmaps() = 0` impossible (`NonZeroU8`)
+example : toGenSeedT (exEnc 0) ⟨2, 2, 16, 0⟩ = some 1 ∧ toGenT (exEnc 1) ⟨1, 1, 4, 1⟩ = some 0 ∧
+    toGenT (exEnc 0) ⟨1, 1, 4, 255⟩ = none := by decide +kernel
 
 end Dds.C15
